@@ -41,11 +41,12 @@ func (r *ResponseFilter) Filter(msg proto.Message) {
 	if msg == nil {
 		return
 	}
-	if len(r.fields.GetPaths()) == 0 {
+	paths := usablePaths(msg, r.fields.GetPaths())
+	if len(paths) == 0 {
 		proto.Reset(msg)
 		return
 	}
-	fmutils.Filter(msg, r.fields.GetPaths())
+	fmutils.Filter(msg, paths)
 }
 
 // FilterClone is like Filter but clones and returns a new msg instead of modifying the original.
@@ -56,14 +57,20 @@ func (r *ResponseFilter) FilterClone(msg proto.Message) proto.Message {
 	if msg == nil {
 		return msg
 	}
-	if len(r.fields.GetPaths()) == 0 {
-		clone := proto.Clone(msg)
+	clone := proto.Clone(msg)
+	paths := usablePaths(msg, r.fields.GetPaths())
+	if len(paths) == 0 {
 		proto.Reset(clone)
 		return clone
 	}
-	clone := proto.Clone(msg)
-	fmutils.Filter(clone, r.fields.GetPaths())
+	fmutils.Filter(clone, paths)
 	return clone
+}
+
+// usablePaths returns paths without those lying below another path of the mask: the parent selects the whole field,
+// while fmutils lets a child path narrow its parent.
+func usablePaths(_ proto.Message, paths []string) []string {
+	return normalPaths(paths)
 }
 
 type ResponseFilterOption func(*ResponseFilter)
